@@ -25,7 +25,7 @@ from common import Model, hx
 
 logging.disable(logging.CRITICAL)
 
-LEAN_TARGETS = ["NfcVerif.Props.C05", "drv_c05"]
+LEAN_TARGETS = ["NfcVerif.Props.C05", "drv_c05", "NfcVerif.Props.TablesPdu"]
 
 THEOREMS = [
     "NfcVerif.C05.dlc_prefix",
@@ -582,6 +582,7 @@ def lock_regions(ck):
 
 
 def run(ck):
+    ck.tables("TablesPdu")   # T-tie for constants: source tables re-extracted, bridge theorems re-proved
     rng = ck.rng
     ck.rule = ("(schedules of blocked threads count as histories too: scenario + decision list) a case is one history: (RW_A, RW_B, MIU_A, MIU_B, link MIU, aggregation, sequence of steps on two real "
                "controllers); bounded-exhaustive: every sequence of length d over a 10-letter step alphabet from the "
